@@ -43,6 +43,22 @@ class Lab:
         I.np = Namespace("np", dict(np_.table, frombuffer=Builtin("np.frombuffer", self.frombuffer), array=Builtin("np.array", lambda a, *r, **k: a), asarray=Builtin("np.asarray", lambda a, *r, **k: a),
                                     prod=Builtin("np.prod", self.prod)))
         self.buf = Obj("instance", {"buffer": self.storage("self.buffer", self.kind), "capacity": Sym(Poly.atom("capacity"))}, cls=self.cls)
+        def _memoryview(x):
+            if isinstance(x, Obj) and getattr(x, "nbytes", None) is not None and getattr(x, "pykind", "buffer") != "list":
+                v = self.data(f"memoryview({x.name})", x.nbytes, length=getattr(x, "items", None) or x.nbytes, origin=getattr(x, "origin", None) or x, layout=getattr(x, "layout", "C"), view=True)
+                v.pykind = "memoryview"
+                v.itemsize_items = getattr(x, "itemsize_items", None)
+                if getattr(x, "zero_dim", False):
+                    v.zero_dim = True
+                return v
+            if isinstance(x, Obj) and x.kind in ("ndarray", "bytearray") and "__setitem__" in x.attrs:
+                w = self.storage(f"memoryview({x.name})", "ndarray")
+                w.base = x
+                w.pykind = "memoryview"
+                return w
+            raise PyExc("TypeError", "memoryview: a bytes-like object is required")
+
+        I.builtins["memoryview"] = Builtin("memoryview", _memoryview)
         # bytearray(x): an independent copy of the bytes of x
         I.builtins["bytearray"] = Builtin("bytearray", lambda x=None: self.data(f"bytearray({getattr(x, 'name', x)})", x.nbytes, origin=getattr(x, "origin", None) or x, view=False) if isinstance(x, Obj) else bytearray(x or 0))
 
@@ -58,6 +74,8 @@ class Lab:
         I = self.I
         d = Obj("data", {}, name=tag)
         d.nbytes, d.origin, d.layout, d.is_view = nbytes, origin, layout, view
+        d.items = length
+        d.pykind = "buffer"
         d.attrs["__len__"] = Builtin("len", lambda: Sym(length if length is not None else nbytes))
         if length is not None:  # typed memoryview / ndarray: has .nbytes
             d.attrs["nbytes"] = Sym(nbytes)
@@ -65,9 +83,17 @@ class Lab:
         d.attrs["tobytes"] = Builtin("tobytes", lambda: self.data(f"bytes({tag})", nbytes, origin=origin or d, view=False))
 
         def getitem(k):
+            if getattr(d, "zero_dim", False):
+                raise PyExc("TypeError", "invalid indexing of 0-dim memory")
             if not isinstance(k, slice):
                 raise AnalysisError(f"B1e: item access {k!r} on {tag}")
             lo, hi = P(k.start if k.start is not None else 0), P(k.stop)
+            if getattr(d, "items", None) is not None and d.items != d.nbytes:
+                # typed memory: the slice counts ITEMS; [0 : n] with n >= items is the whole
+                if lo != Poly.const(0):
+                    raise AnalysisError("B1e: typed memory sliced from a non-zero item")
+                r_ = self.data(f"{tag}[:]", d.nbytes, length=d.items, origin=origin or d, layout=layout, view=True)
+                return r_
             return self.data(f"{tag}[{lo!r}:{hi!r}]", hi - lo, origin=(origin or d, lo), view=True)
 
         d.attrs["__getitem__"] = Builtin("getitem", getitem)
@@ -82,9 +108,11 @@ class Lab:
         def getitem(k):
             if not isinstance(k, slice):
                 raise AnalysisError(f"B1e: item access {k!r} on the storage")
-            lo, hi = P(k.start if k.start is not None else 0), P(k.stop)
+            lo, hi = P(k.start if k.start is not None else 0), (P(k.stop) if k.stop is not None else Poly.atom("capacity"))
             self.log.append(("read", s, lo, hi))
-            return self.data(f"{tag}[{lo!r}:{hi!r}]", hi - lo, origin=(s, lo), view=(kind == "ndarray"))
+            r_ = self.data(f"{tag}[{lo!r}:{hi!r}]", hi - lo, origin=(getattr(s, "base", s), lo), view=(kind == "ndarray"))
+            r_.pykind = "ndarray" if (kind == "ndarray" and getattr(s, "pykind", None) != "memoryview") else "buffer"
+            return r_
 
         def setitem(k, v):
             if not isinstance(k, slice):
@@ -95,6 +123,8 @@ class Lab:
                 raise AnalysisError(f"B1e: store of {v!r}")
             if kind == "ndarray" and nb != hi - lo:
                 raise PyExc("ValueError", f"could not broadcast input array of {nb!r} bytes into {hi - lo!r}")
+            if kind == "bytearray" and getattr(v, "pykind", "buffer") == "ndarray":
+                raise PyExc("TypeError", "can assign only bytes, buffers, or iterables of ints in range(0, 256)")
             self.log.append(("store", s, lo, hi, v, nb != hi - lo))
 
         s.attrs["__getitem__"] = Builtin("storage[]", getitem)
@@ -108,19 +138,24 @@ class Lab:
         self.log.append(("frombuffer", b, vals.get("dtype"), vals.get("count", -1), vals.get("offset", 0)))
         v = Obj("ndview", {}, name="frombuffer")
         v.attrs["reshape"] = Builtin("reshape", lambda *s, **kk: (self.log.append(("reshape", s)), v)[1])
+        # the address of the first byte viewed (symbolic): address(storage) + offset
+        off = vals.get("offset", 0)
+        v.attrs["ctypes"] = Obj("ctypes", {"data": Sym(Poly.atom(f"address({getattr(b, 'name', b)})") + P(off))}, name="ctypes")
         return v
 
-    def ndarray(self, tag, items, dtype, layout):
-        """abstract numpy array: `items` elements of `dtype`, memory layout C / F / strided"""
+    def ndarray(self, tag, items, dtype, layout, ndim=None):
+        """abstract numpy array: `items` elements of `dtype`, memory layout C / F / strided; ndim 0 = a 0-d array"""
         I = self.I
         nb = items * Poly.const(I.getattr(dtype, "itemsize"))
-        a = Obj("ndarray", {"dtype": dtype, "nbytes": Sym(nb), "size": Sym(items)}, name=tag)
+        ndim = ndim if ndim is not None else (1 if layout == "C" else 2)
+        a = Obj("ndarray", {"dtype": dtype, "nbytes": Sym(nb), "size": Sym(items), "ndim": ndim}, name=tag)
         a.nbytes, a.layout, a.items, a.origin, a.is_view = nb, layout, items, None, False
+        a.attrs["reshape"] = Builtin("reshape", lambda *s_, **k_: self._reshaped(a, tag, items, dtype, layout))
 
         def astype(*x, **k):
             dt = x[0] if x else k.get("dtype")
             self.log.append(("astype", a, dt))
-            r = self.ndarray(f"{tag}.astype({I.getattr(dt, 'name')})", items, dt, layout)
+            r = self.ndarray(f"{tag}.astype({I.getattr(dt, 'name')})", items, dt, layout, ndim)
             r.origin = ("converted", a, dt)
             return r
 
@@ -145,6 +180,8 @@ class Lab:
         mv = self.data(f"{tag}.data", nb, length=items, origin=a, layout=layout, view=True)
 
         def mv_get(k):
+            if ndim == 0:
+                raise PyExc("TypeError", "invalid indexing of 0-dim memory")
             # item-wise slice of a typed memoryview: [0 : n] with n >= items gives the whole
             lo, hi = P(k.start if k.start is not None else 0), P(k.stop)
             if lo != Poly.const(0):
@@ -152,8 +189,18 @@ class Lab:
             return self.data(f"{tag}.data[:]", nb, length=items, origin=a, layout=layout, view=True)
 
         mv.attrs["__getitem__"] = Builtin("mv[]", mv_get)
+        mv.zero_dim = ndim == 0
         a.attrs["data"] = mv
         return a
+
+    def _reshaped(self, a, tag, items, dtype, layout):
+        r = self.ndarray(f"{tag}.reshape", items, dtype, "C" if layout == "C" else layout, 1)
+        r.origin = ("flat", a)
+        return r
+
+    def noattr(self, d, name):
+        d.attrs.pop(name, None)
+        return d
 
     def dtype(self, name, itemsize):
         return Obj("dtype", {"name": name, "itemsize": itemsize}, name=f"dtype({name})")
@@ -210,7 +257,8 @@ def b1e(cx):
         for label, mk in (("bytes / bytearray of n bytes", lambda L: L.data("src", N)),
                           ("typed memoryview (numpy array.data) of k float64 items", lambda L: L.data("src", K * Poly.const(8), length=K)),
                           ("typed memoryview of k int16 items", lambda L: L.data("src", K * Poly.const(2), length=K)),
-                          ("memoryview of n bytes (itemsize 1)", lambda L: L.data("src", N, length=N))):
+                          ("memoryview of n bytes (itemsize 1)", lambda L: L.data("src", N, length=N)),
+                          ("buffer object of k float64 items WITHOUT an nbytes attribute (array.array, ctypes array)", lambda L: L.noattr(L.data("src", K * Poly.const(8), length=K), "nbytes"))):
             L = Lab(m, clsname)
             src = mk(L)
             r = one_path(L.run("update_from_buffer", [OFF, src]), "update_from_buffer", L)
@@ -244,6 +292,20 @@ def b1e(cx):
             ok = root is other and roff == pS and st[0][4].nbytes == pN
         cx.check(ok, None, construct=f"{clsname}.update_from_native(offset, source, source_offset, nbytes)", detail="storage[offset : offset+nbytes] = source[source_offset : source_offset+nbytes]",
                  bad_detail=f"not the nbytes bytes at source_offset of the source stored at offset: {[(e[0], repr(e[2]), repr(e[3])) for e in L.log]}" + (f" raises {r['exc'].etype}" if r["exc"] else ""), anchor=anchor + ".update_from_native", sub="update_from_native")
+        # the source's native storage may be of the OTHER kind (update_from_xbuffer between a BufferNumpy and a
+        # BufferByteArray of one context hands it over as it is)
+        L = Lab(m, clsname)
+        okind = "ndarray" if L.kind == "bytearray" else "bytearray"
+        other = L.storage("source", okind)
+        r = one_path(L.run("update_from_native", [OFF, other, SOFF, NB]), "update_from_native", L)
+        st = stores(L)
+        n += 1
+        ok = r["exc"] is None and len(st) == 1 and st[0][1] is L.buf.attrs["buffer"] and st[0][2] == pO and st[0][3] == pO + pN and not st[0][5]
+        if ok:
+            root, roff, conv = _root(st[0][4])
+            ok = root is other and roff == pS and st[0][4].nbytes == pN
+        cx.check(ok, None, construct=f"{clsname}.update_from_native(offset, <native storage of a {'BufferNumpy' if okind == 'ndarray' else 'BufferByteArray'}>, source_offset, nbytes)", detail="the nbytes bytes at source_offset of the other buffer's storage stored at offset",
+                 bad_detail=(f"raises {r['exc'].etype}: {r['exc'].msg} -- every copy from such a buffer of the same context fails" if r["exc"] else "not the requested bytes"), anchor=anchor + ".update_from_native", sub="update_from_native")
         L = Lab(m, clsname)
         dest = L.storage("dest", L.kind)
         r = one_path(L.run("copy_to_native", [dest, DOFF, SOFF, NB]), "copy_to_native", L)
@@ -286,12 +348,12 @@ def b1e(cx):
                  bad_detail=f"not a view of prod(shape) items of dtype at offset: {[(e[0],) + tuple(repr(x) for x in e[2:]) for e in fb]}", anchor=anchor + ".to_nplike", sub="to_nplike")
 
         # ---- update_from_nplike: layouts x conversion
-        for layout in ("C", "F", "last axis strided"):
+        for layout in ("C", "F", "last axis strided", "0-d"):
             for convert in (False, True):
                 L = Lab(m, clsname)
                 f8, f4 = L.dtype("float64", 8), L.dtype("float32", 4)
-                ITEMS = Poly.atom("items")
-                val = L.ndarray("value", ITEMS, f8, layout)
+                ITEMS = Poly.atom("items") if layout != "0-d" else Poly.const(1)
+                val = L.ndarray("value", ITEMS, f8, "C" if layout == "0-d" else layout, 0 if layout == "0-d" else None)
                 dest = f4 if convert else f8
                 r = one_path(L.run("update_from_nplike", [OFF, dest, val]), "update_from_nplike", L)
                 st = stores(L)
@@ -316,3 +378,208 @@ def b1e(cx):
                 cx.check(not why, None, construct=f"{clsname}.update_from_nplike(offset, {'float32' if convert else 'float64'}, <float64 array, {layout} layout>)", detail="the value's bytes (converted first when the dtypes differ) at [offset, offset + nbytes)",
                          bad_detail=why, anchor=anchor + ".update_from_nplike", sub="update_from_nplike")
     cx.need(n >= 30, f"only {n} primitive cases evaluated")
+
+
+# ------------------------------------------------------------------------------------------ K1e kernel argument conversion
+@rule("K1e", ["C17", "C02", "C07"], "KernelCpu.to_function_arg, evaluated with a recording ffi: numpy arrays and xobject arrays reach the kernel as a pointer to their first element IN PLACE (no temporary copy), typed from their own element type; compounds as storage address + offset; wrong byte order refused")
+def k1e(cx):
+    """`to_function_arg` of the current source is run for every kind of argument against a recording `ffi_interface`
+    (`cast(type, x)` and `from_buffer(x)` record what they are given).  The abstract values carry what the property is
+    about: where their bytes come from and whether an expression over them is a VIEW or a COPY (a slice of a bytearray
+    copies, a slice of an ndarray or of a memoryview does not; indexing a 0-d ndarray with () gives a scalar copy)."""
+    m = cx.m
+    fn = m.func("context_cpu::KernelCpu.to_function_arg")
+    n = 0
+
+    def world(kind):
+        L = Lab(m, "BufferByteArray" if kind == "bytearray" else "BufferNumpy")
+        I = L.I
+        K = I.global_lookup("context_cpu", "KernelCpu")
+        CCpu = I.global_lookup("context_cpu", "ContextCpu")
+        rec = []
+
+        def cast(ty, x):
+            rec.append(("cast", ty, x))
+            return ("pointer", ty, x)
+
+        def from_buffer(x, *a, **k):
+            if isinstance(x, str) and a:  # typed form: from_buffer("T[]", obj) is a T* to the object's memory
+                rec.append(("from_buffer", a[0]))
+                ty = x[:-2] + "*" if x.endswith("[]") else x
+                return ("pointer", ty, ("address-of", a[0]))
+            rec.append(("from_buffer", x))
+            return ("address-of", x)
+
+        ffi = Obj("instance", {"cast": Builtin("ffi.cast", cast), "from_buffer": Builtin("ffi.from_buffer", from_buffer)}, name="ffi")
+        desc = Obj("instance", {"pyname": "k"}, name="description")
+        me = Obj("instance", {"ffi_interface": ffi, "description": desc}, cls=K)
+        # memoryview(x): a view of x that can be sliced without copying
+        def mview(x):
+            if isinstance(x, Obj) and x.kind in ("ndarray", "bytearray") and "__setitem__" in x.attrs:
+                v = L.storage(f"memoryview({x.name})", "ndarray")  # slicing a memoryview never copies
+                v.base = x
+                return v
+            if isinstance(x, Obj) and getattr(x, "nbytes", None) is not None:
+                return x
+            raise AnalysisError(f"K1e: memoryview of {x!r}")
+
+        I.builtins["memoryview"] = Builtin("memoryview", mview)
+        I.builtins["isinstance"] = Builtin("isinstance", lambda v, c: True if (isinstance(v, Obj) and v.kind == "cpu-context" and c is CCpu) else I._isinstance(v, c))
+        return L, I, me, rec
+
+    DT = {"float64": ("double", 8), "int32": ("int32_t", 4)}
+    # ---- numpy arrays
+    for shape_kind, native, arrdt in [(sk, nat, "float64") for sk in ("1-d", "2-d", "0-d") for nat in (True, False)] + [("1-d", True, "int32")]:
+        if True:
+            L, I, me, rec = world("ndarray")
+            nd = {"1-d": 1, "2-d": 2, "0-d": 0}[shape_kind]
+            dt = Obj("dtype", {"name": arrdt, "itemsize": DT[arrdt][1], "isnative": native, "str": ("<" if native else ">") + ("f8" if arrdt == "float64" else "i4"), "byteorder": "=" if native else ">"}, name="dtype")
+
+            def mkarr(tag, ndim, origin=None, is_view=False, scalar=False):
+                a = Obj("ndarray", {"dtype": dt, "ndim": ndim}, name=tag)
+                a.origin, a.is_view, a.scalar = origin, is_view, scalar
+                a.attrs["data"] = Obj("data", {}, name=f"{tag}.data")
+                a.attrs["data"].owner = a
+
+                def getitem(k):
+                    ks = k if isinstance(k, tuple) else (k,)
+                    if ndim == 0:
+                        if ks == ():
+                            return mkarr(f"{tag}[()]", 0, origin=a, is_view=False, scalar=True)  # numpy scalar: a COPY
+                        raise PyExc("IndexError", "too many indices for array")
+                    if len(ks) != ndim or not all(isinstance(x, slice) and x.start == 0 and x.stop == 1 for x in ks):
+                        raise AnalysisError(f"K1e: array indexed with {k!r}")
+                    return mkarr(f"{tag}[first element]", ndim, origin=a, is_view=True)
+
+                a.attrs["__getitem__"] = Builtin("ndarray[]", getitem)
+                a.attrs["reshape"] = Builtin("reshape", lambda *s, **kk: mkarr(f"{tag}.reshape", 1, origin=a, is_view=True))
+                a.attrs["ctypes"] = Obj("ctypes", {"data": ("address-of-first-element", a)}, name="ctypes")
+                return a
+
+            arr = mkarr("value", nd)
+            # np.ascontiguousarray / np.array(...) MAY copy (the caller's array may be a strided slice): a copy
+            I.np = Namespace("np", dict(I.np.table, ascontiguousarray=Builtin("np.ascontiguousarray", lambda a, *r, **k: mkarr(f"ascontiguousarray({a.name})", max(a.attrs["ndim"], 1), origin=a, is_view=False)),
+                                        array=Builtin("np.array", lambda a, *r, **k: mkarr(f"np.array({a.name})", a.attrs["ndim"], origin=a, is_view=False)),
+                                        asarray=Builtin("np.asarray", lambda a, *r, **k: a)))
+            I.modglobals.setdefault("context_cpu", {})["dtype2ctype"] = Builtin("dtype2ctype", lambda d: DT[I.getattr(d, "name")][0])
+            arg = Obj("instance", {"pointer": True, "atype": Obj("scalar", {"_dtype": dt, "_c_type": "double"}, name="Float64"), "name": "p"}, name="arg")
+            res = I.explore(lambda: I.call(I.getattr(me, "to_function_arg"), [arg, arr], {}), max_paths=8)
+            cx.recog(len(res) == 1, fn, f"to_function_arg(numpy {shape_kind}): {len(res)} paths")
+            r = res[0]
+            n += 1
+            label = f"double* argument <- {shape_kind} numpy {arrdt} array, {'native' if native else 'NON-native'} byte order"
+            want_ty = DT[arrdt][0] + "*"
+            if not native:
+                cx.check(r["exc"] is not None, None, construct=label, detail="refused (the element type the kernel declares is the native one)",
+                         bad_detail="accepted: dtype.name ignores the byte order, the kernel reads byte-swapped garbage", anchor="context_cpu::KernelCpu.to_function_arg", sub="ndarray.byteorder")
+                continue
+            why = ""
+            if r["exc"] is not None:
+                why = f"raises {r['exc'].etype}: {r['exc'].msg}"
+            else:
+                out = r["result"]
+                ok_shape = isinstance(out, tuple) and out[0] == "pointer"
+                if not ok_shape or out[1] != want_ty:
+                    why = f"pointer type {out[1] if ok_shape else out!r}, expected {want_ty} (from the array's OWN dtype, so that cffi refuses an array of another element type than the declared one)"
+                else:
+                    src = out[2]
+                    base = None
+                    if isinstance(src, tuple) and src[0] == "address-of":
+                        d_ = src[1]
+                        base = getattr(d_, "owner", None) or (d_ if isinstance(d_, Obj) and d_.kind == "ndarray" else None)
+                    elif isinstance(src, tuple) and src[0] == "address-of-first-element":
+                        base = src[1]
+                    chain, copied = base, False
+                    k_ = 0
+                    while chain is not None and chain is not arr and k_ < 6:
+                        copied = copied or not chain.is_view
+                        chain, k_ = chain.origin, k_ + 1
+                    if chain is not arr:
+                        why = "the pointer is not derived from the caller's array"
+                    elif copied:
+                        why = "the pointer is taken from a COPY of the array's first element (a numpy scalar / temporary): what the kernel writes is lost, what it reads may be released memory"
+            cx.check(not why, None, construct=label, detail=f"pointer to the first element of the caller's array, in place, typed {want_ty} from the array's own dtype", bad_detail=why, anchor="context_cpu::KernelCpu.to_function_arg", sub="ndarray.ptr")
+    # ---- xobject arrays in both storage kinds
+    OFFV, DOFF = Sym(Poly.atom("value._offset")), Sym(Poly.atom("value._data_offset"))
+    for kind in ("ndarray", "bytearray"):
+        L, I, me, rec = world(kind)
+        st = L.buf.attrs["buffer"]
+        ctx = Obj("cpu-context", {}, name="ctx")
+        xbuf = Obj("instance", {"buffer": st, "context": ctx}, name="xbuffer")
+        item = Obj("scalar", {"_c_type": "double", "_dtype": Obj("dtype", {"name": "float64"}, name="dt")}, name="Float64")
+        val = Obj("xoarray", {"_buffer": xbuf, "_offset": OFFV, "_data_offset": DOFF, "_itemtype": item, "_shape": (3,), "_c_type": "Arr3Float64"}, name="value")
+        arg = Obj("instance", {"pointer": True, "atype": item, "name": "p"}, name="arg")
+        res = I.explore(lambda: I.call(I.getattr(me, "to_function_arg"), [arg, val], {}), max_paths=8)
+        cx.recog(len(res) == 1, fn, f"to_function_arg(xobject array in a {kind} buffer): {len(res)} paths")
+        r = res[0]
+        n += 1
+        why = ""
+        if r["exc"] is not None:
+            why = f"raises {r['exc'].etype}: {r['exc'].msg}"
+        else:
+            out = r["result"]
+            if not (isinstance(out, tuple) and out[0] == "pointer" and out[1] == "double*"):
+                why = f"pointer type {out[1] if isinstance(out, tuple) else out!r}, expected double* (the item type)"
+            else:
+                src = out[2]
+                d_ = src[1] if isinstance(src, tuple) and src[0] == "address-of" else None
+                if d_ is None or getattr(d_, "origin", None) is None:
+                    why = "the pointer is not taken from the buffer's storage"
+                else:
+                    root, roff = d_.origin
+                    root = getattr(root, "base", root)
+                    if root is not st or roff != P(OFFV) + P(DOFF):
+                        why = f"the pointer starts at {roff!r} of {getattr(root, 'name', root)}, expected value._offset + value._data_offset of the current storage"
+                    elif not d_.is_view:
+                        why = f"slicing a {kind} copies: the kernel gets a pointer into a temporary copy of the buffer's tail (writes are lost, reads may see released memory)"
+        cx.check(not why, None, construct=f"pointer argument <- xobject Float64[3] living in a {'BufferByteArray' if kind == 'bytearray' else 'BufferNumpy'}", detail="pointer to the array's first element inside the buffer's current storage, typed from the item type",
+                 bad_detail=why, anchor="context_cpu::KernelCpu.to_function_arg", sub="xoarray.ptr")
+    # ---- compound xobjects: storage address + current offset, typed as the declared class; scalars by value
+    for kind in ("ndarray", "bytearray"):
+        L, I, me, rec = world(kind)
+        st = L.buf.attrs["buffer"]
+        ctx = Obj("cpu-context", {}, name="ctx")
+        xbuf = Obj("instance", {"buffer": st, "context": ctx}, name="xbuffer")
+        atype = Obj("xoclass", {"_c_type": "MyStruct", "_size": 24}, name="MyStruct")
+        val = Obj("xostruct", {"_buffer": xbuf, "_offset": OFFV}, name="value")
+        arg = Obj("instance", {"pointer": False, "atype": atype, "name": "obj"}, name="arg")
+        st2 = L.storage("storage after growth", kind)
+
+        def twice():
+            first = I.call(I.getattr(me, "to_function_arg"), [arg, val], {})
+            xbuf.attrs["buffer"] = st2  # the buffer grew: its storage was replaced
+            second = I.call(I.getattr(me, "to_function_arg"), [arg, val], {})
+            return first, second
+
+        res = I.explore(twice, max_paths=8)
+        cx.recog(len(res) == 1, fn, f"to_function_arg(compound in a {kind} buffer): {len(res)} paths")
+        r = res[0]
+        n += 1
+        why = ""
+        if r["exc"] is not None:
+            why = f"raises {r['exc'].etype}: {r['exc'].msg}"
+        else:
+            out, again = r["result"]
+            from ..peval import topoly as _tp0
+            if not (isinstance(again, tuple) and _tp0(again[2]) is not None and _tp0(again[2]) == Poly.atom(f"address({st2.name})") + P(OFFV)):
+                why = f"after the buffer grew (new storage) the pointer is {again[2] if isinstance(again, tuple) else again!r}: a remembered address of the OLD storage is used"
+            want = Poly.atom(f"address({st.name})") + P(OFFV)
+            from ..peval import topoly as _tp
+            if why:
+                pass
+            elif not (isinstance(out, tuple) and out[0] == "pointer" and out[1] == "MyStruct"):
+                why = f"typed {out[1] if isinstance(out, tuple) else out!r}, expected the declared class MyStruct"
+            elif _tp(out[2]) is None or _tp(out[2]) != want:
+                why = f"pointer is {out[2]!r}, expected address of the current storage + value._offset"
+        cx.check(not why, None, construct=f"by-value compound argument <- struct living in a {'BufferByteArray' if kind == 'bytearray' else 'BufferNumpy'}", detail="address of the buffer's current storage + the object's current offset, typed as the declared class",
+                 bad_detail=why, anchor="context_cpu::KernelCpu.to_function_arg", sub="compound.ptr")
+    L, I, me, rec = world("ndarray")
+    conv = []
+    sc = Obj("scalar", {"_dtype": Obj("dtype", {"name": "float64"}, name="dt"), "_c_type": "double"}, name="Float64")
+    sc.attrs["__call__"] = Builtin("Float64()", lambda v=0: (conv.append(v), ("float64", v))[1])
+    arg = Obj("instance", {"pointer": False, "atype": sc, "name": "s"}, name="arg")
+    res = I.explore(lambda: I.call(I.getattr(me, "to_function_arg"), [arg, 0.5], {}), max_paths=4)
+    n += 1
+    cx.check(len(res) == 1 and res[0]["exc"] is None and res[0]["result"] == ("float64", 0.5) and conv == [0.5], None, construct="by-value scalar argument", detail="converted with the declared scalar type",
+             bad_detail=f"by-value scalars are not converted with the declared type: {res[0]['result'] if res and res[0]['exc'] is None else res[0]['exc']}", anchor="context_cpu::KernelCpu.to_function_arg", sub="scalar")
+    cx.need(n >= 11, f"only {n} argument cases evaluated")
